@@ -61,9 +61,13 @@ impl Qcow2IoTokio {
         let mut file = self.file.lock().await;
 
         file.seek(SeekFrom::Start(offset)).await?;
-        let res = file.write(buf).await?;
 
-        assert!(res == buf.len());
+        // tokio's File takes at most 2 MiB per write() and only hands the
+        // data to a background task: write everything, and wait until it has
+        // reached the file, or a later request that bypasses the File (the
+        // hole punch on the raw fd) overtakes it.
+        file.write_all(buf).await?;
+        file.flush().await?;
 
         Ok(())
     }
@@ -75,9 +79,19 @@ impl Qcow2IoOps for Qcow2IoTokio {
         let mut file = self.file.lock().await;
 
         file.seek(SeekFrom::Start(offset)).await?;
-        let res = file.read(buf).await?;
 
-        Ok(res)
+        // a single read() returns at most 2 MiB: go on until the buffer is
+        // full or the end of the file is reached
+        let mut done = 0;
+        while done < buf.len() {
+            let res = file.read(&mut buf[done..]).await?;
+            if res == 0 {
+                break;
+            }
+            done += res;
+        }
+
+        Ok(done)
     }
 
     async fn write_from(&self, offset: u64, buf: &[u8]) -> Qcow2Result<()> {
